@@ -8,11 +8,11 @@ from . import lexcommon as LC
 
 CRATES = None   # all
 
-def source_fb(K, self_loops=True, section='VAR'):
-    """K function blocks; block i declares one variable per potential edge i->j whose type name is the placeholder Tij"""
+def source_fb(K, self_loops=True, section='VAR', dup=False):
+    """K function blocks; block i declares one variable per potential edge i->j whose type name is the placeholder Tij (dup: two variables per edge, the same type used twice)"""
     out = []
     for i in range(K):
-        vs = ''.join('  v%d_%d : T%d_%d;\n' % (i, j, i, j) for j in range(K))
+        vs = ''.join('  v%d_%d : T%d_%d;\n' % (i, j, i, j) + ('  w%d_%d : T%d_%d;\n' % (i, j, i, j) if dup else '') for j in range(K))
         out.append('FUNCTION_BLOCK fb%d\n%s\n%sEND_VAR\nEND_FUNCTION_BLOCK\n' % (i, section, vs))
     return out
 
